@@ -21,6 +21,7 @@ import (
 	"fmt"
 	"io"
 	"io/fs"
+	"net/url"
 	"os"
 	"strconv"
 	"strings"
@@ -229,10 +230,19 @@ func ParseObjectTags(t string) (map[string]string, error) {
 		if len(p) != 2 {
 			return nil, s3err.GetAPIError(s3err.ErrInvalidTag)
 		}
-		if len(p[0]) > 128 || len(p[1]) > 256 {
+		// the header value is URL-encoded ("k%20a=v%2B1")
+		k, err := url.QueryUnescape(p[0])
+		if err != nil {
 			return nil, s3err.GetAPIError(s3err.ErrInvalidTag)
 		}
-		tagging[p[0]] = p[1]
+		v, err := url.QueryUnescape(p[1])
+		if err != nil {
+			return nil, s3err.GetAPIError(s3err.ErrInvalidTag)
+		}
+		if len(k) > 128 || len(v) > 256 {
+			return nil, s3err.GetAPIError(s3err.ErrInvalidTag)
+		}
+		tagging[k] = v
 	}
 
 	return tagging, nil
